@@ -69,7 +69,7 @@ fn one(src: &str, stream: &str) -> Option<Case> {
     // features of the tree, for the distribution
     for (k, t) in [("(bin ", "binary"), ("(un ", "unary"), ("(cvar ", "compound-var"), ("(access ", "array-access"), ("(call ", "call"),
                    ("(block ", "block-fn"), ("(scoped ", "scoped-fn"), ("(let ", "constants"), ("(dom ", "domains"), ("(it ", "iteration"),
-                   ("(prim ", "array-or-graph"), ("(str ", "string"), ("(num ", "float"), ("(bool ", "bool"), ("(cv ", "compound-decl")] {
+                   ("(prim ", "array-or-graph"), ("(str ", "string"), ("(num ", "float"), ("(bool ", "bool"), ("(cv ", "compound-decl"), ("(tuple ", "tuple-iteration")] {
         if before.contains(k) { c.tags.push(t.into()); }
     }
     if before.contains("true (its") { c.tags.push("logic-assertion".into()); }
@@ -225,6 +225,13 @@ pub fn generate(seed: u64, n: usize, thorough: bool, corpus: Option<&str>) -> Ve
             r.pick(&["2", "3", "1 + 1"]), r.pick(&["2", "2.5", "1 - 3", "2 * (1 + 1)", "10 / (2 * 5)"]),
             r.pick(&["Real", "Boolean", "IntegerRange(0 - 5, 5)", "Real(0 - q, q)", "NonNegativeReal(0, 2 * (q + 1))"]));
         push(t, "templates", &mut cases);
+        // graphs, tuple iteration, several iterators, nested scoped functions, escaped and indexed names
+        let e4 = render_exp(&mut r, &slot, 1, 0).replace('x', "y_u_v").replace('y', "c").replace('z', "x_u").replace('w', "k").replace('a', "c").replace('b', "k").replace('d', "2");
+        let t2 = format!(
+            "{} sum((u, v, c) in edges(G)) {{ {} }} + sum(i in 0..k, j in 0..=i) {{ sum(l in j..k) {{ z_i_j * l }} }}\ns.t.\n    flow_u: sum((_, v, c) in edges(G), w in 0..k) {{ y_u_v }} <= {} for u in nodes(G)\n    \\total_1: {} {{ t, \\w_1 }} {} 1\n    y_A_B {} t\nwhere\n    let G = Graph {{ A -> [B: 2, C: -1.5], B -> [C], C }}\n    let k = {}\n    let names = [\"a\", \"b c\"]\ndefine\n    y_u_v as {} for (u, v) in edges(G)\n    x_u as Boolean for u in nodes(G)\n    z_i_j as IntegerRange(0, k) for i in 0..k, j in 0..=i\n    t, \\w_1 as {}\n",
+            r.pick(&["min", "max"]), e4, r.pick(&["1", "k", "len(names)", "2 k"]), r.pick(&["min", "max", "avg"]), r.pick(&["<=", ">=", "="]),
+            r.pick(&["<=", ">=", "=", "<", ">"]), r.pick(&["2", "3"]), r.pick(&["Boolean", "NonNegativeReal", "Real(0, 1)"]), r.pick(&["Real", "NonNegativeReal(0, 10)"]));
+        push(t2, "templates-graph", &mut cases);
     }
     cases
 }
